@@ -5,6 +5,7 @@ CONSTANTS
   WithPlans = TRUE
   BlockBudget = 9
   MinDecls = 38
+  MaxNest = 5
   TypesOnly = FALSE
   CallsOnly = FALSE
   Rich = TRUE
